@@ -28,8 +28,9 @@ func runC15(c *Ctx) {
 	c.Rule("W-layout (S7), for webp.writeRIFF and mux.Muxer.Assemble (used by the animation encoder): in every input class the ICCP/EXIF/XMP chunk payloads are exactly the caller's blobs, the VP8X flags announce exactly the chunks written, sizes and padding are consistent (W1-W3 as for C14)")
 	c.Rule("M1 non-interference: no value derived from EncoderOptions.ICC/EXIF/XMP reaches a function or a configuration struct of internal/lossy or internal/lossless")
 	c.Rule("M2 sibling paths: the two lossless paths selected by the presence of metadata (the functions that call lossless.Encode and lossless.EncodeToWriter) have equal canonical expressions for every pixel store, for the conditions controlling them, for their same-package calls and for every field of the encoder configuration")
+	c.Rule("M3 muxer bypass: the animation encoder gives ICC/EXIF/XMP to its muxer and only Muxer.Assemble writes them; every Write of an AnimEncoder method to the caller's writer either writes bytes assembled by the muxer or is reached only under a test of state that the metadata setters maintain")
 	c.Rule("R1-R3 for the demuxer (the reader that serves GetChunk and the animation reader): every chunk walk advances by 8+size+pad, hands on payload slices of exactly the declared size, and only ends at the end of the data or with an error (never a successful return from inside the walk, which would hide trailing EXIF/XMP chunks)")
-	c.NotCovered("that equal encoder inputs give equal bitstreams (C11/C12); which chunk GetChunk selects; metadata attached by the animation encoder beyond what Muxer.Assemble writes")
+	c.NotCovered("that equal encoder inputs give equal bitstreams (C11/C12); which chunk GetChunk selects")
 	max := 300000
 	for _, cf := range c.configsFor()[:1] {
 		p := c.load(cf[0], cf[1])
@@ -45,6 +46,7 @@ func runC15(c *Ctx) {
 		}
 		c15NonInterference(c, p)
 		c15Siblings(c, p)
+		c15Bypass(c, p)
 		// reading back: the demuxer's chunk walks (R1 advance, R2 payload, R3 walk to the end)
 		readerFile := func(fn *ssa.Function) bool {
 			f := p.Pos(fn.Pos())
